@@ -37,22 +37,29 @@ WithCheck(conv, v, chk) ==  \* v with its check slice replaced
 (* generic slice convention (binding data in the event): b = <<pa, pb, ck, cn>>, 0-based; pb <= 0 and ck < 0 count from the end *)
 GPb(e) == IF e.b[2] <= 0 THEN Len(e.v) + e.b[2] ELSE e.b[2]
 GCk(e) == IF e.b[3] < 0 THEN Len(e.v) + e.b[3] ELSE e.b[3]
-PayloadE(e) == IF e.conv = "gen" THEN SubSeq(e.v, e.b[1] + 1, GPb(e)) ELSE Payload(e.conv, e.v)
-CheckLoE(e) == IF e.conv = "gen" THEN GCk(e) + 1 ELSE CheckLo(e.conv, e.v)
-NCheckE(e) == IF e.conv = "gen" THEN e.b[4] ELSE NCheck(e.conv)
+(* "cat": the generator is given a concatenation of slices of v (e.pl = sequence of <<a, b>>, 0-based, b <= 0 from the end),   *)
+(* e.g. the Irish VAT number whose check letter sits between the digits and an optional second letter                        *)
+CatPayload(e) == FoldLeft(LAMBDA acc, s : acc \o SubSeq(e.v, s[1] + 1, IF s[2] <= 0 THEN Len(e.v) + s[2] ELSE s[2]), <<>>, e.pl)
+PayloadE(e) == CASE e.conv = "gen" -> SubSeq(e.v, e.b[1] + 1, GPb(e))
+                 [] e.conv = "cat" -> CatPayload(e)
+                 [] OTHER -> Payload(e.conv, e.v)
+CheckLoE(e) == IF e.conv \in {"gen", "cat"} THEN GCk(e) + 1 ELSE CheckLo(e.conv, e.v)
+NCheckE(e) == IF e.conv \in {"gen", "cat"} THEN e.b[4] ELSE NCheck(e.conv)
 CheckSliceE(e) == SubSeq(e.v, CheckLoE(e), CheckLoE(e) + NCheckE(e) - 1)
 WithCheckE(e, chk) == SubSeq(e.v, 1, CheckLoE(e) - 1) \o chk \o SubSeq(e.v, CheckLoE(e) + NCheckE(e), Len(e.v))
 
 IsStrRet(r) == r.k = "ret" /\ r.t = "str"
-(* documented alternative check characters: <<module, original, alternative>>  *)
-DocumentedAlt == {}
+(* documented alternative check characters: formats whose generator returns BOTH admissible check characters (e.either:     *)
+(* es.cif, pe.cui -- "returns both the number and character check digit candidates"): the candidates are e.r.v / e.g          *)
+Occurs(ch, s) == \E i \in 1..Len(s) : s[i] = ch
 
 M1(e) == e.kind = "p1" => e.arg = PayloadE(e)
-P1(e) == e.kind = "p1" => (IsStrRet(e.r) /\ e.r.v = CheckSliceE(e))
+P1(e) == e.kind = "p1" => (IsStrRet(e.r) /\ IF e.either THEN NCheckE(e) = 1 /\ Occurs(CheckSliceE(e)[1], e.r.v)
+                                                     ELSE e.r.v = CheckSliceE(e))
 M2(e) == e.kind = "p2" => (/\ e.pos \in 0..(NCheckE(e) - 1)
                            /\ e.ed = [e.v EXCEPT ![CheckLoE(e) + e.pos] = e.alt]
                            /\ e.alt # e.v[CheckLoE(e) + e.pos])
-P2(e) == e.kind = "p2" => (~e.acc \/ <<e.m, e.v[CheckLoE(e) + e.pos], e.alt>> \in DocumentedAlt)
+P2(e) == e.kind = "p2" => (~e.acc \/ (e.either /\ Occurs(e.alt, e.g)))
 M3(e) == e.kind = "p3" => (IsStrRet(e.gen) => e.ed = WithCheckE(e, e.gen.v))
 (* a generator that raises, or returns something that is not a check slice (e.g. '10' when the  *)
 (* payload has no valid check digit), means the payload was not well-formed: P3 says nothing    *)
